@@ -325,7 +325,8 @@ func filterEscape(in *Value, param *Value) (*Value, *Error) {
 	output = strings.Replace(output, "<", "&lt;", -1)
 	output = strings.Replace(output, "\"", "&quot;", -1)
 	output = strings.Replace(output, "'", "&#39;", -1)
-	return AsValue(output), nil
+	// the result is markup: {{ v|escape }} is not escaped once more by autoescaping
+	return AsSafeValue(output), nil
 }
 
 func filterSafe(in *Value, param *Value) (*Value, *Error) {
